@@ -52,7 +52,92 @@ def predicate_units(prog: Program) -> List[Tuple[str, str, ast.FunctionDef]]:
     return sorted(out, key=lambda t: (t[0], t[1], t[2].lineno))
 
 
+def r02f(prog: Program, chk: Check) -> None:
+    chk.rule(
+        "R02.f",
+        "closed-world complement: a predicate may enumerate `the other members` of a type only when the variable's "
+        "type IS that type (identity test on .typ), never for a supertype",
+        floor=2,
+    )
+    for m, q, fn in predicate_units(prog):
+        for comp in [n for n in walk_no_nested(fn) if isinstance(n, (ast.ListComp, ast.GeneratorExp))]:
+            if len(comp.generators) != 1:
+                continue
+            it = comp.generators[0].iter
+            # iterating a *type* (pattern_type / self.pattern_type / type(x)) enumerates its members
+            it_text = norm(it)
+            is_type_iter = False
+            if isinstance(it, ast.Name):
+                srcs = local_assignments(fn, it.id)
+                is_type_iter = any(isinstance(s, ast.Call) and isinstance(s.func, ast.Name) and s.func.id == "type" for s in srcs)
+            if isinstance(it, ast.Attribute) and it.attr.endswith("_type"):
+                is_type_iter = True
+            if not is_type_iter:
+                continue
+            # the enumeration must be guarded by `<x>.typ is <that type>`
+            type_exprs = {it_text}
+            if isinstance(it, ast.Name):
+                type_exprs |= {norm(s) for s in local_assignments(fn, it.id)}
+            ok = False
+            for g, pol in guards_of(comp, fn):
+                if not pol:
+                    continue
+                parts = g.values if isinstance(g, ast.BoolOp) and isinstance(g.op, ast.And) else [g]
+                for part in parts:
+                    if isinstance(part, ast.Compare) and len(part.ops) == 1 and isinstance(part.ops[0], ast.Is):
+                        l, r = norm(part.left), norm(part.comparators[0])
+                        if l.endswith(".typ") and r in type_exprs or r.endswith(".typ") and l in type_exprs:
+                            ok = True
+            chk.ob(
+                "R02.f",
+                f"{m}::{q}::complement-enumeration::{it_text}",
+                ok,
+                prog.site(m, comp),
+                f"the members of `{it_text}` are enumerated as the narrowed type without an identity test `value.typ is {it_text}`: "
+                "for a variable declared as a supertype the values outside that type are lost",
+            )
+
+
+def r02g(prog: Program, chk: Check) -> None:
+    chk.rule(
+        "R02.g",
+        "a match-case guard always contributes its constraint to the case (even a null one): otherwise the "
+        "negation used for later cases claims the pattern alone failed",
+        floor=1,
+    )
+    fn = None
+    for key in ("NameCheckVisitor.visit_Match",):
+        if prog.has_func("name_check_visitor", key):
+            fn = prog.func("name_check_visitor", key)
+    if fn is None:
+        raise AnchorError("NameCheckVisitor.visit_Match not found")
+    guard_ifs = [n for n in walk_no_nested(fn) if isinstance(n, ast.If) and norm(n.test) in ("case.guard is not None", "case.guard")]
+    if not guard_ifs:
+        raise AnchorError("visit_Match: `if case.guard is not None` not found")
+    gi = guard_ifs[0]
+    appends = [c for c in calls_in(gi, "append") if isinstance(c.func, ast.Attribute) and norm(c.func.value) == "constraints"]
+    ok = bool(appends) and all(len(guards_of(c, gi)) <= 1 for c in appends)
+    chk.ob(
+        "R02.g",
+        "name_check_visitor::NameCheckVisitor.visit_Match::guard-constraint-unconditional",
+        ok,
+        prog.site("name_check_visitor", gi),
+        "the guard's constraint is appended to the case's constraints only under an extra condition: a guard without narrowing "
+        "information is then treated as always true when the case is negated",
+    )
+    inv = [c for c in calls_in(fn, "invert") if "AndConstraint.make(constraints)" in norm(c)]
+    chk.ob(
+        "R02.g",
+        "name_check_visitor::NameCheckVisitor.visit_Match::negation-of-whole-case",
+        bool(inv),
+        prog.site("name_check_visitor", fn),
+        "later cases must be narrowed by the negation of (pattern AND guard), not of the pattern alone",
+    )
+
+
 def run(prog: Program, chk: Check) -> None:
+    r02f(prog, chk)
+    r02g(prog, chk)
     r02a(prog, chk)
     r02b(prog, chk)
     r02c(prog, chk)
